@@ -421,7 +421,8 @@ class C12(Prop):
     rule = ("M lines: mv_decode (hook) on all 64 x 64 (predictor, differential) pairs per component (x and y swapped in turn), plus the UMV "
             "range classes; A lines: average_sum_of_mvs for all sums -128..124 and a sample of the i16 range; LP / MED lines; N lines: "
             "predict_candidate at every macroblock position of pictures 1, 2, 3 and 5 macroblocks wide x 3 rows x 4 block indices with random "
-            "neighbour vectors (zero vectors for intra / not-coded neighbours). Non-trivial: M with a wrap, N with row > 0; distinct by text.")
+            "neighbour vectors (zero vectors for intra / not-coded neighbours); P lines: generated P pictures (every macroblock type mix, one- and four-vector, intra and not-coded "
+            "neighbours) through the real decoder vs. the model, planes by hash - the stored neighbour vectors are observable only there. Non-trivial: M with a wrap, N with row > 0; distinct by text.")
 
     def cases(self, tier, rng):
         out = []
@@ -464,6 +465,9 @@ class C12(Prop):
                             pv += mv4(zero=rng.random() < 0.3)
                         cur = mv4()
                         out.append(f"N {w} {idx} {','.join(map(str, cur))} {','.join(map(str, pv)) if pv else '-'}")
+        # the vectors the macroblock loop files for its neighbours (zero for intra and not-coded macroblocks, the decoded ones for
+        # INTER / INTER4V) are observable only through whole pictures: P pictures with every macroblock type mix
+        out += core.gen_lines("inter", rng.randint(1, 10 ** 6), core.q(tier, 250, 4000))
         return out
 
     def nontrivial(self, case, model_out):
